@@ -360,6 +360,19 @@ def rule_default_collector(ctx):
                         recv = show(e.args[0])
                         if "self" in recv and "." in recv:
                             guarded.update(e.callee.closure_args() if getattr(e, "callee", None) is not None else [])
+        # a helper all of whose callers are guarded closures (or such helpers) runs under the Once too
+        callers = {}
+        for v in reach:
+            for (_, _, c) in prog.bodies[v].calls():
+                if c.target in reach:
+                    callers.setdefault(c.target, set()).add(v)
+        changed = True
+        while changed:
+            changed = False
+            for f, cs_ in callers.items():
+                if f not in guarded and prog.bodies[f].kind != "closure" and cs_ and all(x in guarded for x in cs_):
+                    guarded.add(f)
+                    changed = True
         nsites = 0
         bad_sites = []
         for v in sorted(reach):
@@ -729,7 +742,10 @@ def rule_tunables(ctx):
                     lo, hi = const_of(a[3][0]), const_of(a[3][1])
                     if lo is not None and hi is not None:
                         trials.add(hi - lo)
-    pops = any(norm(c.target or "").startswith("ebr_impl::sync::queue::Queue::try_pop") for (_, _, c) in cb.calls())
+    # (the pop may sit in a closure or in a helper a refactoring split off)
+    pops = any(cb.name in prog.path_roots(x.name) or prog.home(x.name) == cb.name
+               for q in prog.bodies if norm(q).startswith("ebr_impl::sync::queue::Queue::try_pop")
+               for (x, _, _, _) in prog.callers_of(q))
     if trials:
         n += 1
         ok = min(trials) >= 1 and pops
